@@ -17,6 +17,7 @@ from datashard.storage_backend import S3RangeFile, S3StorageBackend
 from vf.runner import Ob
 
 LEVEL = "other"
+TECHNIQUE = ('CrossHair (z3): inductive single steps of the real range reader with unbounded ints, the real retry loop over symbolic outcome sequences, listing / exists with symbolic keys + symx program equivalence and fault runs on both real backends')
 EXPLANATION = (
     "Bounded symbolic execution of the real S3RangeFile (single inductive step from an arbitrary state, unbounded "
     "integers), the real retry loop (symbolic outcome sequence of 7 attempts) and the real S3 key mapping / listing / "
